@@ -258,6 +258,10 @@ def api_calls(tree, tree2, o, spec, spec2):
         ('walk', lambda: spec.walk(leaves, lambda t, d, c: c, lambda x: x)),
         ('compose', lambda: spec.compose(spec2)),
         ('transform', lambda: spec.transform(lambda s: s, lambda s: s)),
+        # treespecs handed to the operation BY THE CALLBACKS are operands too: pre-built, retained replacement treespecs (one per arity / one leaf
+        # replacement) must come back untouched
+        ('transform/retained-replacements', lambda: retained_transform(spec, o)),
+        ('transform/retained-replacements/other', lambda: retained_transform(spec2, o)),
         ('broadcast_to_common_suffix', lambda: spec.broadcast_to_common_suffix(spec2)),
         ('broadcast_to_common_suffix/rev', lambda: spec2.broadcast_to_common_suffix(spec)),
         ('is_prefix', lambda: (spec.is_prefix(spec2), spec2.is_prefix(spec), spec <= spec2, spec < spec2, spec == spec2)),
@@ -268,6 +272,36 @@ def api_calls(tree, tree2, o, spec, spec2):
         ('pickle', lambda: __import__('pickle').dumps(spec)),
     ]
     return calls, leaves
+
+
+RETAINED = {}
+
+
+def retained_transform(spec, o):
+    """transform() with callbacks that return memoised treespecs kept by the caller; raises AssertionError if one of them changed."""
+    leaf = optree.treespec_leaf(none_is_leaf=o.none_is_leaf)
+    memo = RETAINED.setdefault(o.none_is_leaf, {})
+
+    def f_node(s):
+        n = s.num_children
+        if n not in memo:
+            memo[n] = optree.treespec_tuple([leaf] * n, none_is_leaf=o.none_is_leaf)
+            memo[n, 'obs'] = obs(memo[n])
+        return memo[n]
+
+    leaf_rep = memo.setdefault('leaf', optree.treespec_list([leaf, leaf], none_is_leaf=o.none_is_leaf))
+    memo.setdefault(('leaf', 'obs'), obs(leaf_rep))
+    out = spec.transform(f_node, lambda s: leaf_rep)
+    changed = [k for k in list(memo) if not isinstance(k, tuple) and obs(memo[k]) != memo[k, 'obs']]
+    if changed:
+        for k in changed:
+            del memo[k], memo[k, 'obs']  # report once, then start from fresh replacements
+        raise RetainedChanged(f'retained replacement treespec(s) for {changed} changed')
+    return out
+
+
+class RetainedChanged(AssertionError):
+    pass
 
 
 def inputs_case(sink, seed, idx):
@@ -310,6 +344,8 @@ def inputs_case(sink, seed, idx):
                 outcome = type(e).__name__
             after = (snapshot(t1), snapshot(t2), [id(x) for x in leaves], obs(s1), obs(s2))
             which = [n for n, a, b in zip(('tree', 'other tree', 'leaves list', 'treespec', 'other treespec'), before, after) if a != b]
+            if outcome == 'RetainedChanged':
+                which.append('treespec returned by a callback')
             sink.check(not which, f'inputs-unchanged/{name}/' + ','.join(which), 'no operation mutates its input trees, leaf sequences or operand treespecs', dict(ident, call=name, outcome=outcome),
                        lambda: which)
             sink.count(f'api:{outcome}')
